@@ -30,7 +30,7 @@ Open Scope N_scope.
 (* ---------- the three trait methods on one payload ---------- *)
 Record adapter (R : Type) : Type := mk_adapter {
   ad_len : option N;                        (* VecOps::len *)
-  ad_split : outcome (list (list R));       (* VecOps::split(payload, n) -- n is ignored by the file adapters *)
+  ad_split : N -> outcome (list (list R));  (* VecOps::split(payload, n) -- the file adapters ignore n *)
   ad_clone : outcome (list R)               (* VecOps::clone_any *)
 }.
 Arguments mk_adapter {R} _ _ _.
@@ -58,14 +58,14 @@ Section Adapters.
   Definition jsonl_adapter (de : list Z -> option R) (ls : list (list Z)) (rs : list range) (total : N)
     : adapter R :=
     mk_adapter (Some total)
-               (otraverse_o (read_range de ls) rs)
+               (fun _ => otraverse_o (read_range de ls) rs)
                (read_range de ls (0, total)).
 
   (* CsvVecOps over the deserialised data rows of the current file (a row that fails to
      deserialise is outside this model: the csv crate is a library) *)
   Definition rows_adapter (rows : list R) (rs : list range) (total : N) : adapter R :=
     mk_adapter (Some total)
-               (Ok (map (rows_read_range rows) rs))
+               (fun _ => Ok (map (rows_read_range rows) rs))
                (Ok (rows_read_range rows (0, total))).
 
   (* read_parquet_row_group_range(s, a, b): `(a..b).collect()` row-group indices handed to
@@ -80,8 +80,39 @@ Section Adapters.
   (* ParquetVecOps: split = one range read per shard; clone_any = groups 0 .. end of the LAST range *)
   Definition pq_adapter (groups : list (list R)) (rs : list range) (total_rows : N) : adapter R :=
     mk_adapter (Some total_rows)
-               (otraverse_o (pq_read_checked groups) rs)
+               (fun _ => otraverse_o (pq_read_checked groups) rs)
                (pq_read_checked groups (0, last_end rs)).
+
+  (* read_csv_range as the index loop it is:
+       for (i, rec) in rdr.deserialize().enumerate() { if i < start { continue } if i >= end { break } out.push(rec?) }
+     (Proofs/ExecProofs.v rows_loop_is_slice: this is rows_read_range = slice, for every start / end,
+     inverted and out-of-file ones included) *)
+  Fixpoint rows_read_loop (i : N) (rows : list R) (s e : N) : list R :=
+    match rows with
+    | [] => []
+    | x :: r =>
+        if i <? s then rows_read_loop (i + 1) r s e
+        else if e <=? i then []
+        else x :: rows_read_loop (i + 1) r s e
+    end.
+
+  (* VecOpsImpl<T> (the adapter of from_vec collections, /repo/src/type_token.rs):
+       split(v, n): if n <= 1 || len <= 1 { vec![v.clone()] } else { v.chunks(len.div_ceil(n)) }
+       clone_any = v.clone(); len = v.len() *)
+  Fixpoint chunks_fuel (fuel : nat) (k : nat) (l : list R) : list (list R) :=
+    match fuel with
+    | O => []
+    | S f => match l with
+             | [] => []
+             | _ => firstn k l :: chunks_fuel f k (skipn k l)
+             end
+    end.
+  Definition chunks (k : nat) (l : list R) : list (list R) := chunks_fuel (length l) k l.
+  Definition mem_split (v : list R) (n : N) : list (list R) :=
+    if (n <=? 1) || (nlen v <=? 1) then [v]
+    else chunks (N.to_nat (div_ceil (nlen v) n)) v.
+  Definition mem_adapter (v : list R) : adapter R :=
+    mk_adapter (Some (nlen v)) (fun n => Ok (mem_split v n)) (Ok v).
 
   (* the payloads read_*_streaming builds for a file whose content does not change afterwards *)
   Definition jsonl_source (de : list Z -> option R) (ls : list (list Z)) (per : N) : adapter R :=
@@ -105,13 +136,19 @@ Definition all_engines : list engine := [ESeq; EPar; ESeqCk; EParCk].
 Section Engines.
   Context {R : Type}.
 
-  (* The Source arm.
+  (* exec_par / run_subplan_par:  let total_len = vec_ops.len(payload).unwrap_or(0);
+                                  let parts = partitions.max(1).min(total_len.max(1)); *)
+  Definition par_parts (partitions : N) (a : adapter R) : N :=
+    N.min (N.max partitions 1) (N.max (match ad_len a with Some l => l | None => 0 end) 1).
+
+  (* The Source arm (`partitions` = the count the Runner resolved: requested, else suggested by the
+     planner, else default_partitions; unused by the sequential engines).
      sequential engines:  vec_ops.clone_any(payload).ok_or_else(|| anyhow!("unsupported source vec type"))?
      parallel engines:    vec_ops.split(payload, parts).unwrap_or_else(|| vec![clone_any(payload).expect(..)])
      The result is the list of partitions the rest of the chain is applied to. *)
-  Definition source_parts (e : engine) (a : adapter R) : outcome (list (list R)) :=
+  Definition source_parts (e : engine) (partitions : N) (a : adapter R) : outcome (list (list R)) :=
     if engine_par e then
-      match ad_split a with
+      match ad_split a (par_parts partitions a) with
       | Ok parts => Ok parts
       | Panic => Panic
       | Err => match ad_clone a with Ok v => Ok [v] | _ => Panic end
@@ -121,12 +158,24 @@ Section Engines.
 
   (* a pipeline that is just the source (or the source followed by stateless identity steps): the
      terminal collection concatenates the partitions in order (zero partitions = empty result) *)
-  Definition exec_source (e : engine) (a : adapter R) : outcome (list R) :=
-    match source_parts e a with Ok parts => Ok (concat parts) | Err => Err | Panic => Panic end.
+  Definition exec_source (e : engine) (partitions : N) (a : adapter R) : outcome (list R) :=
+    match source_parts e partitions a with Ok parts => Ok (concat parts) | Err => Err | Panic => Panic end.
 
   (* a source that is one side of a join: run_subplan_seq / run_subplan_par have the same Source
      arms; the checkpointing engines call the same two functions *)
-  Definition subplan_source (e : engine) (a : adapter R) : outcome (list (list R)) := source_parts e a.
+  Definition subplan_source (e : engine) (partitions : N) (a : adapter R) : outcome (list (list R)) :=
+    source_parts e partitions a.
+
+  (* NOT the code: the Source arm of seeded change C09-r4m2 ("the sequential engine materialises
+     the source as split(payload, 1), first partition"). Kept to document why no in-memory test can
+     see it (Props/C09.v c09_first_split_refuted). *)
+  Definition source_first_split (a : adapter R) : outcome (list R) :=
+    match ad_split a 1 with
+    | Ok (p :: _) => Ok p
+    | Ok [] => Err
+    | Err => Err
+    | Panic => Panic
+    end.
 End Engines.
 
 (* ---------- inner join of a streamed side (unique or repeated ids) with an in-memory side ----------
@@ -135,8 +184,8 @@ End Engines.
 Definition count_key (k : Z) (keys : list Z) : nat := length (filter (Z.eqb k) keys).
 Definition join_keys (streamed other : list Z) : list Z :=
   sort_by Z.leb (flat_map (fun k => repeat k (count_key k other)) streamed).
-Definition join_side_ids (e : engine) (a : adapter Z) (other : list Z) : outcome (list Z) :=
-  match subplan_source e a with
+Definition join_side_ids (e : engine) (partitions : N) (a : adapter Z) (other : list Z) : outcome (list Z) :=
+  match subplan_source e partitions a with
   | Ok parts => Ok (join_keys (concat parts) other)
   | Err => Err
   | Panic => Panic
